@@ -70,6 +70,8 @@ PATCH_STRING_VECTOR = True         # docs/C19_string_vector.diff  (element of a 
 PATCH_STRING_KEY_SEPARATOR = True  # docs/C19_string_key_separator.diff  (keyword element ending in a separator)
 PATCH_STRING_META_TARGET = True    # docs/C19_string_meta_target.diff  (text iterator metatype to 's' without target: op n)
 
+PATCH_VALUES_TEXT = True           # docs/C19_values_text.diff  (value list metatype to 's': description text; op d on value lists)
+
 TEXT_KINDS = ("create", "values", "string")
 GRID_KINDS = ("poly", "profile")
 
@@ -103,12 +105,35 @@ COUNTS = ["0", "1", "2", "3", "4", "5", "7", "10", "12", "30", "39", "40", "41",
           "99999999999999999999", "18446744073709551615", "18446744073709551616", "", "x"]
 GOODCOUNTS = COUNTS[:14]
 MUTCH = "():,; \t\nabxyz0159.-+eE"
-OPS = "vvvaaarckwsVVAARCKWSzmZ"
+OPS = "vvvaaarckwsVVAARCKWSzmZMdD"
 KEY_OPS = "yyyqaaaarcjmzsYYQAARCJZ"
 VEC_OPS = "xxxoaaaarclmzsXXOAARCLZ"
 MIX_OPS = "vyxuqoaaaarckwsjlmzVYXUAARCKWJLZ"
 if PATCH_STRING_META_TARGET:
     KEY_OPS, VEC_OPS, MIX_OPS = KEY_OPS + "nN", VEC_OPS + "nN", MIX_OPS + "nN"
+
+
+def restrict_values_text(kind, arg, ops):
+    """while docs/C19_values_text.diff is not committed: the description a value list hands out is not used
+    (op d on sources that may be value lists is dropped; the other generators answer alike with and without it;
+    op m reports result codes and whether a text was handed out, not the text)"""
+    if PATCH_VALUES_TEXT:
+        return ops
+    maybe_list = False
+    if kind == "values":
+        maybe_list = True
+    elif kind == "create":
+        maybe_list = arg is not None and not re.match(rb"\s*(lin|fac|range)", arg, re.I)
+    elif kind == "rset":
+        maybe_list = ";values;" in arg
+    if not maybe_list:
+        return ops
+    return [o for o in ops if o not in "dD"] or ["v"]
+
+
+def no_desc(ops):
+    """text and buffer iterators: re-creation from the description (op d) is specified for the generators only"""
+    return [o for o in ops if o not in "dD"] or ["v"]
 
 
 def rnd_ops(rng, maxlen=30, alphabet=OPS):
@@ -354,7 +379,9 @@ def gen_rset(rng):
         if rng.random() < 0.2:
             t = gen_string(rng) if sk == "string" else gen_vals(rng)
         t = t.encode() or b" "
-        return " ".join(["rset", "it;%s;%s" % (sk, hx(t)), oracle(t)] + pick_ops(rng)[:8])
+        ops = pick_ops(rng)[:8]
+        return " ".join(["rset", "it;%s;%s" % (sk, hx(t)), oracle(t)]
+                        + (no_desc(ops) if sk == "string" else restrict_values_text("rset", ";%s;" % sk, ops)))
     if r < 0.5:
         return "rset itn -"
     if r < 0.85:
@@ -403,8 +430,10 @@ class C19(DiffProperty):
             "mpt_iterator_linear / _boundary / mpt_meta_buffer / _arguments / mpt_values_linear / _bound, or a text/value-list iterator handed as "
             "TypeIteratorPtr value to _mpt_iterator_linear/_range/_factor - kind from, with the next value of the source observed) + an interleaving of up to 30 calls "
             "of value / advance / reset / clone / mpt_iterator_consume ('d', and type 0 = skip) / documented loop (<= 40 elements) / "
-            "read-as-string / conversions of the metatype itself (text and buffer iterators: type list, iterator, buffer, vector, string, "
-            "unsupported type, with and without target, addref) on the source (lower case) and on its clone (upper case). Text iterators "
+            "read-as-string / conversions of the metatype itself (op m; text and buffer iterators: type list, iterator, buffer, vector, string, "
+            "unsupported type, with and without target, addref; the generators of mptplot/values - linear, range, factor, boundary, polynomial, "
+            "value list: type list, iterator, 'd', 's' with and without target, addref) / re-creation of a generator from the description it hands "
+            "out (op d: slot 1 := mpt_iterator_values(text of the 's' conversion); offered by value lists only) on the source (lower case) and on its clone (upper case). Text iterators "
             "(mpt_iterator_string with separator configurations NULL, empty, ':', ',;', ' ', ': ', '=', tab+',', 'b', the default) are also "
             "read element by element as keyword ('k'), as 'c' vector, as uint32 and without target, and walked with the documented loop "
             "reading keywords / vectors; histories of ONE reader are compared with the cursor of that reader, histories mixing readers "
@@ -422,7 +451,10 @@ class C19(DiffProperty):
             "(b-a)/n is zero or a normal binary64 number). A case is non-trivial when it runs at least one call. While "
             "PATCH_STRING_VECTOR / PATCH_STRING_KEY_SEPARATOR (top of props/c19.py) are False the generator keeps vector reads to texts "
             "'(word blank)+' and keyword reads to texts without separator characters, where patched and unpatched code agree; the "
-            "conversion of the text-iterator metatype to 's' WITHOUT target (op n) is generated only with PATCH_STRING_META_TARGET.")
+            "conversion of the text-iterator metatype to 's' WITHOUT target (op n) is generated only with PATCH_STRING_META_TARGET; "
+            "while PATCH_VALUES_TEXT is False op d is not generated on sources that may be value lists (kinds values, rset it;values, "
+            "create with a text that does not start with lin/fac/range) - op m, which reports result codes and whether a text was handed "
+            "out but not the text, runs everywhere.")
     modelled = ("mptplot/values/{iterator_linear,iterator_factor,iterator_boundary,iterator_poly,iterator_values,iterator_create,"
                 "iterator_profile,values_linear,values_bound,range_set}.c, mptcore/meta/iterator_string.c (element conversions to double, "
                 "uint32, string, keyword incl. mpt_convert_key with separator configurations, 'c' vector; clone; result codes of the "
@@ -432,7 +464,11 @@ class C19(DiffProperty):
                 "binary64 arithmetic is modelled exactly (round-to-nearest-even on rationals; sign of zero not represented); strtod / "
                 "strtoumax are oracles; mpt_range_set and the constructors fed from another iterator (consume 'u'/'d' from a text iterator or a "
                 "value list) are modelled. The keyword and vector element conversions are modelled AS PATCHED "
-                "(docs/C19_string_key_separator.diff, docs/C19_string_vector.diff). NOT modelled: the 'file' profile, the CONTENT of the "
+                "(docs/C19_string_key_separator.diff, docs/C19_string_vector.diff); the metatype conversions of the five generator files "
+                "(iterConv, iterFactorConv, iterBoundaryConv, iterPolyConv, iterValueConv) are result-code tables, the description a value "
+                "list hands out is modelled AS PATCHED (docs/C19_values_text.diff: the text kept behind the object) and used by op d. "
+                "NOT modelled: the C++ value source mpt::source<T> and the default iterator::advance/reset of mptcore/types.h (no C++ harness "
+                "for C19; see notes, open finding span negative length), the 'file' profile, the CONTENT of the "
                 "'s'/vector conversions of the text-iterator METATYPE (they hand out the separator configuration, see notes), typed "
                 "(non-char) buffers (harness syntax <hex>@<type> exists, generator does not emit it), errno values, allocation failure")
     trusted = ["libc strtod / strtoumax (value, consumed length, ERANGE) are an oracle: the generator asks the same libc through ctypes for every "
@@ -441,10 +477,13 @@ class C19(DiffProperty):
                "validated by the bit-exact comparison of every value, not proved",
                "harness/c19_iter.c reads values the way examples/iter.c does (value(), mpt_value_convert to 'd'); texts live in exact-size heap blocks; "
                "keywords are read as C strings up to the terminator the iterator wrote, vectors by base and length (lengths above 100000 are printed as 'wild')"]
-    level_text = ("proof: 41 Coq theorems (coq/C19/Properties.v), all for EVERY arithmetic rnd : Q -> fv, every count in N and every history, no "
+    level_text = ("proof: 43 Coq theorems (coq/C19/Properties.v), all for EVERY arithmetic rnd : Q -> fv, every count in N and every history, no "
                   "bound. Protocol: C19_walk_visits_exactly / C19_walk_of_nothing / C19_text_walk_visits_exactly (documented loop yields exactly "
                   "the remaining denoted sequence and stops), C19_past_end_reported, C19_reset_replays + C19_denoted_stable, C19_clone_replays / "
                   "C19_clone_refines, C19_history_refines (any interleaving of value/advance/reset/clone/skip on source and clone, all seven kinds), "
+                  "C19_history_refines_desc (the same with re-creation of a generator from the description it hands out: a value list re-created from "
+                  "its own text stands at the start of the same denoted sequence whatever position it was described at, the other generators refuse), "
+                  "C19_values_reset_total (the reset of a value list cannot fail: both error branches of iterValueReset are unreachable), "
                   "C19_build_fresh / C19_buffer_fresh / C19_text_fresh (any separators). Text iterator read as keywords / 'c' vectors, every "
                   "separator configuration: C19_byte_history_refines (any interleaving of such reads with and without target, advance, reset, "
                   "clone on source and clone refines the cursor over the elements the text denotes for that reader), "
@@ -468,13 +507,18 @@ class C19(DiffProperty):
                   "profile grammar as the model's lexical functions; (3) the 'file' profile is not modelled; (4) histories that MIX the "
                   "readers of a text iterator (numbers, keywords, vectors, uint32) are compared with the mechanism model only - the cursor "
                   "theorems hold per reader; the metatype conversions (parseConv / bufferConv / bufferConvArgs) are result-code tables "
-                  "compared with the code, not subject of a theorem. THREE OPEN DEFECTS in mptcore/meta/iterator_string.c (replays "
+                  "compared with the code, not subject of a theorem (this includes the result codes of the five generator files). OPEN DEFECT in "
+                  "mptplot/values/iterator_values.c: the 's' conversion hands out `(char *) d + 1` (one byte into the object) instead of the text "
+                  "behind it - replay docs/C19_replay_values_text.json (`create \"3 4\"` | a d: re-creation refused, D:0 vs D:1), patch "
+                  "docs/C19_values_text.diff, switch PATCH_VALUES_TEXT (False: op d is kept off value lists); model and theorems describe the code "
+                  "WITH the patch. OPEN FINDING not under the check: mpt::span<T>(ptr, negative length) keeps a huge byte length, so "
+                  "mpt::source<T>(ptr, -1) reports a further element after none and hands out a value at address 8 (docs/C19_span_negative_length.diff, "
+                  "probe docs/C19_span_negative_length_probe.cpp). The three defects in mptcore/meta/iterator_string.c are committed (replays "
                   "docs/C19_replay_string_vector*.json, docs/C19_replay_string_key_separator*.json, docs/C19_replay_string_meta_target.json; "
                   "patches docs/C19_string_vector.diff, docs/C19_string_key_separator.diff, docs/C19_string_meta_target.diff): the model and "
-                  "the theorems describe the code WITH the patches; until they are committed the switches PATCH_STRING_VECTOR / "
-                  "PATCH_STRING_KEY_SEPARATOR / PATCH_STRING_META_TARGET in props/c19.py are False and the generator keeps vector / keyword "
-                  "reads to texts on which patched and unpatched code agree and does not emit op n. Unreachable in the anchored files (not "
-                  "driven): bufferConvertEntry and the converter branch of bufferGet (entry.converter is never set), the failure branch of "
+                  "the theorems describe the code with these patches (switches PATCH_STRING_VECTOR / PATCH_STRING_KEY_SEPARATOR / "
+                  "PATCH_STRING_META_TARGET are True). Unreachable in the anchored files (not "
+                  "driven): iterator_values.c lines 114/115/118 (reset failure: C19_values_reset_total), bufferConvertEntry and the converter branch of bufferGet (entry.converter is never set), the failure branch of "
                   "mpt_meta_buffer (bufferReset never returns < 0), iterator_string.c lines 51/82/149 (a pending terminator implies a "
                   "non-blank element; no NUL inside the text without one); the failure branch of mpt_meta_arguments needs a typed buffer "
                   "with a partial last element (not modelled). All theorems are closed under "
@@ -494,6 +538,8 @@ class C19(DiffProperty):
             skip.add("patched_string_key_separator.cases")
         if not PATCH_STRING_META_TARGET:
             skip.add("patched_string_meta_target.cases")
+        if not PATCH_VALUES_TEXT:
+            skip.add("patched_values_text.cases")
         cs = []
         for f in sorted(os.listdir(d)):
             if f in skip or not f.endswith(".cases"):
@@ -501,6 +547,12 @@ class C19(DiffProperty):
             for line in open(os.path.join(d, f)):
                 line = line.strip()
                 if line and not line.startswith("#"):
+                    t = line.split()
+                    if not PATCH_VALUES_TEXT and t[0] in ("values", "create", "rset") and len(t) > 3:
+                        arg = None if t[0] != "create" else (None if t[1] == "n" else unhx(t[1]))
+                        if t[0] == "rset":
+                            arg = t[1]
+                        line = " ".join(t[:3] + restrict_values_text(t[0], arg, t[3:]))
                     cs.append(line)
         return cs
 
@@ -538,6 +590,8 @@ class C19(DiffProperty):
             return tok[:3] + ("-" if int(tok[3:]) < 0 else "+")
         if tok.startswith("Sn:"):
             return "Sn:" + ("-" if int(tok[3:]) < 0 else "+")
+        if tok.startswith("D:"):
+            return "D:-" if tok[2:].startswith("-") else tok
         if tok.startswith("Z:"):
             n = int(tok[2:])
             return "Z:+" if n > 0 else ("Z:0" if n == 0 else "Z:-")
@@ -610,8 +664,10 @@ class C19(DiffProperty):
                     cl.add(name)
             if hdr[0] == "strsep":
                 cl.add("separators:" + hdr[1].split(";")[0])
-        if "m" in o.lower() and hdr[0] in ("string", "strsep", "buffer", "args"):
+        if "m" in o.lower():
             cl.add("metatype-conversions:" + hdr[0])
+        if "d" in o.lower() and hdr[0] not in ("string", "strsep", "buffer", "args"):
+            cl.add("re-created-from-description:" + hdr[0])
         if "z" in o.lower():
             cl.add("skip")
         if hdr[0] in ("buffer", "args") and ("k" in o.lower() or "w" in o.lower()):
@@ -687,9 +743,13 @@ class C19(DiffProperty):
         # fixed probes: every canned history on a few well-formed sources
         for d in ["lin(3 : 0 1)", "fac(3 : 2 : 3 : 1)", "range(0 1 : 0.25)", "1 2 3", "lin(1)", "fac(0)", "", "lin(4294967294 : 0 1)",
                   "fac(4294967295)", "range(0 1)", "1 nan 2", "1 2 x"]:
-            for o in CANNED:
-                cases.append(mk_text_case("create", d.encode(), o))
-        cases.append(mk_text_case("create", None, list("wrwc" "W")))
+            for o in CANNED + [list("mavdVAmMDV"), list("wdWmrcMD")]:
+                cases.append(mk_text_case("create", d.encode(), restrict_values_text("create", d.encode(), o)))
+        cases.append(mk_text_case("create", None, list("wrwc" "WmdM")))
+        cases.append("linear 3,0000000000000000,3ff0000000000000 - m a d c M D")
+        cases.append("boundary 3,0000000000000000,3ff0000000000000,4000000000000000 - m a d c M D")
+        cases.append("poly %s;3ff0000000000000,4000000000000000 %s m a d c M D" % (hx(b"1 2 3"), oracle(b"1 2 3")))
+        cases.append("poly %s;n %s m a d" % (hx(b"1 2"), oracle(b"1 2")))
         # text iterator read as keywords / vectors / mixed; metatype conversions and numbers-from-buffers
         for d in [b"ab cd ef ", b"12 7 "]:
             for o in ["jrj", "lrl", "yaxauaz", "mcMzZ", "xacXALrx", "qaoasaya", "ycYAJ"]:
@@ -704,12 +764,14 @@ class C19(DiffProperty):
             r = rng.random()
             ops = pick_ops(rng)
             if r < 0.40:
-                cases.append(mk_text_case("create", gen_create(rng).encode(), ops))
+                t = gen_create(rng).encode()
+                cases.append(mk_text_case("create", t, restrict_values_text("create", t, ops)))
             elif r < 0.46:
-                cases.append(mk_text_case("values", gen_vals(rng).encode() if rng.random() < 0.95 else None, ops))
+                cases.append(mk_text_case("values", gen_vals(rng).encode() if rng.random() < 0.95 else None,
+                                          restrict_values_text("values", None, ops)))
             elif r < 0.50:
                 t = gen_string(rng).encode() if rng.random() < 0.97 else None
-                cases.append(mk_text_case("string", t, ops))
+                cases.append(mk_text_case("string", t, no_desc(ops)))
             elif r < 0.56:
                 # text iterator read as keywords / 'c' vectors / everything mixed, with separator configurations
                 mode = rng.choice(["key", "key", "vec", "vec", "mix"])
@@ -742,7 +804,7 @@ class C19(DiffProperty):
             elif r < 0.94:
                 b = gen_buffer(rng)
                 kind = rng.choice(["buffer", "args"])
-                cases.append(" ".join([kind, hx(b) if (b and rng.random() < 0.95) else "n", "-"] + ops))
+                cases.append(" ".join([kind, hx(b) if (b and rng.random() < 0.95) else "n", "-"] + no_desc(ops)))
             elif r < 0.975:
                 # constructors fed from another iterator
                 ctor = rng.choice(["lin", "range", "fac"])
